@@ -12,7 +12,11 @@ Inductive case :=
 | CBearer (hdr qtok ftok : bytes) (formct : bool) (applies : bool) (tok : option bytes) (scopes_ok marker_ok pok : bool)
 (* default authentication: operation writer present, default writer present, Authorization preset by the parameters;
    observed: the Authorization value the server receives. Operation writes Bearer OP, default writes Bearer DEF *)
-| CDefault (op def : bool) (preset : bytes) (seen : bytes).
+| CDefault (op def : bool) (preset : bytes) (seen : bytes)
+(* default authentication crossed with every kind of writer: the operation's writer, the transport-wide default writer
+   (None = not configured), the header and query parameters set by the operation's parameters before the credentials
+   are written; observed: every header that is not the transport's own and every query parameter the server receives *)
+| CDefaultX (op def : option writer) (preh preq : list (bytes * bytes)) (hdrs qry : obs_map).
 
 Definition empty_req : request := mkReq [] [] false [].
 Definition pair_eqb (a b : bytes * bytes) : bool := bytes_eqb (fst a) (fst b) && bytes_eqb (snd a) (snd b).
@@ -57,4 +61,8 @@ Definition check_case (c : case) : N :=
                      | _ => trim_blanks preset      (* a header was set: the default credential stays away *)
                      end in
     verdict (bytes_eqb seen (get_header s_authorization q')) (bytes_eqb seen want)
+  | CDefaultX op def preh preq hdrs qry =>
+    let q0 := preset_request preh preq empty_req in
+    verdict (wire_match hdrs qry (effective_cred op def q0))
+            (wire_match hdrs qry (expected_request op def q0))
   end.
